@@ -431,6 +431,26 @@ blocked_not_sleeping(int tid)
     return s == T_BLK_MUTEX || s == T_BLK_COND || s == T_BLK_JOIN;
 }
 
+int
+live_created_threads()
+{
+    int n = 0;
+    for (Thread* t : K.threads)
+        if (t->cfn && t->state != T_DONE)
+            ++n;
+    return n;
+}
+
+std::string
+live_created_thread_names()
+{
+    std::string s;
+    for (Thread* t : K.threads)
+        if (t->cfn && t->state != T_DONE)
+            s += t->name + ":" + state_name(t->state) + " ";
+    return s;
+}
+
 bool
 poke_cond_waiter(int tid)
 {
